@@ -90,6 +90,10 @@ class RuleRecord:
 
     def instance(self, what):
         self.instances.append(construct_name(what))
+        if isinstance(what, FuncInfo):
+            if not hasattr(self, "instance_funcs"):
+                self.instance_funcs = []
+            self.instance_funcs.append(what)
 
     def ok(self, sample=None):
         self.obligations += 1
